@@ -145,7 +145,7 @@ def gen_case(g):
         v = [0.0, float(g.choice(xo)), float(numpy.nextafter(g.choice(xo), 1.0)), float(numpy.nextafter(g.choice(pos), 0.0)) if len(pos) else 0.0,
              0.25, float(numpy.nextafter(0.5, 0.0))][int(g.integers(6))]
         rng = ConstUniform(seed, v); rng.frac = v; rcls = "const-uniform"
-    pc = int(g.choice([0, 0, 1, 7, 123, 99990, 9000000])); fc = int(g.choice([0, 0, 3, 10 ** 6]))
+    pc = int(g.choice([0, 0, 1, 7, 123, 99990, 9000000, 9999997, 9999999, 10000000, 99999998])); fc = int(g.choice([0, 0, 3, 10 ** 6]))
     return dict(name=name, npar=npar, prefix=prefix, pg=pg, xc=xc, nmating=nmating, nprogeny=nprogeny, nself=nself, rng=rng,
                 rcls=rcls, pc=pc, fc=fc, codes=codes, xomode=xomode, tot=tot, cls=(mcls, pcls), hap=hap, grouped=grouped)
 
